@@ -47,6 +47,12 @@ def gen_cases(tier, seed):
                 ne = (2, 2) if (cont == "r" or kind in ("rhf", "cisd")) else tuple(int(x) for x in rng.choice([[2, 2], [2, 1]]))
                 cases.append({"type": "propagate", "kind": kind, "container": cont, "norb": 4, "nelec": list(ne), "s": int(rng.integers(1 << 30)),
                               "dt": float(rng.choice([0.005, 0.02])), "group": "p-%s-%s-%s" % (kind, cont, ne), "cost": 8})
+    for pk in ("cpmc", "cpmc_slow"):
+        for tk in ("uhf", "ghf"):
+            for rep in range(1 if q else 4):
+                cases.append({"type": "cpmc", "prop": pk, "trial": tk, "lattice": str(rng.choice(["chain4", "grid2x2"])), "nelec": [2, int(rng.choice([1, 2]))],
+                              "u": float(rng.choice([2.0, 6.0])), "dt": float(rng.choice([0.02, 0.1])), "noise": float(rng.choice([0.1, 0.5])), "style": "afm",
+                              "theta": 0.6, "zeeman": float(rng.choice([0.0, 0.5])), "s": int(rng.integers(1 << 30)), "group": "cp-%s-%s-%d" % (pk, tk, rep), "cost": 8})
     for rep in range(2 if q else 10):
         cases.append({"type": "storage", "norb": int(rng.choice([3, 4])), "nocc": int(rng.choice([1, 2])), "s": int(rng.integers(1 << 30)),
                       "level": "sampler", "group": "st-%d" % rep, "cost": 25})
@@ -261,5 +267,43 @@ def run_storage(case):
     return {"events": events, "nontrivial": True, "sample": sample, "counters": {"storage_cases": 1}}
 
 
+def run_cpmc(case):
+    """permutation equivariance of one constrained-path step (walkers, random numbers, weights, overlaps, Green's functions permuted together)"""
+    import jax.numpy as jnp
+
+    from checks import c10
+
+    nw = 6
+    S = c10._setup(case, np.random.default_rng(case["s"]), nw, "onsite", "fast" if case["prop"] == "cpmc" else "slow")
+    rng = np.random.default_rng(case["s"] + 1)
+    n, na, nb = S["n"], S["na"], S["nb"]
+    wu = S["a"][None] + case["noise"] * rng.normal(size=(nw, n, na))
+    wd = S["b"][None] + case["noise"] * rng.normal(size=(nw, n, nb))
+    gauss = rng.normal(size=(nw, n))
+    weights = rng.uniform(0.5, 1.5, size=nw)
+    p = _perm(rng, nw)
+    prop, trial, hd, wdat = S["prop"], S["trial"], S["ham_data"], S["wave_data"]
+
+    def run(idx):
+        pd = prop.init_prop_data(trial, wdat, hd, [jnp.array(wu[idx] + 0j), jnp.array(wd[idx] + 0j)])
+        pd["weights"] = jnp.array(weights[idx])
+        pd["pop_control_ene_shift"] = jnp.array(0.3)
+        out = prop.propagate(trial, hd, pd, jnp.array(gauss[idx]), wdat)
+        return (np.asarray(out["walkers"][0]), np.asarray(out["walkers"][1]), np.asarray(out["weights"]), np.asarray(out["overlaps"]),
+                float(out["pop_control_ene_shift"]))
+
+    a = run(np.arange(nw))
+    b = run(p)
+    key = "C14/cpmc/%s/%s" % (case["prop"], case["trial"])
+    alive = a[2][p] > 0
+    events = [judge("cpmc/permutation-weights", float(np.max(np.abs(a[2][p] - b[2]))), 1e-11, key + "/weights"),
+              judge("cpmc/shift-symmetric-in-weights", abs(a[4] - b[4]) if np.isfinite(a[4]) and np.isfinite(b[4]) else (0.0 if a[4] == b[4] else 1.0), 1e-9 * max(1.0, abs(a[4]) if np.isfinite(a[4]) else 1.0), key + "/shift")]
+    if alive.any():
+        events.append(judge("cpmc/permutation-walkers", max(float(np.max(np.abs(a[0][p][alive] - b[0][alive]))), float(np.max(np.abs(a[1][p][alive] - b[1][alive]))) if nb else 0.0), 1e-11, key + "/walkers"))
+        events.append(judge("cpmc/permutation-overlaps", float(np.max(np.abs(a[3][p][alive] - b[3][alive]) / np.abs(a[3][p][alive]))), 1e-10, key + "/overlaps"))
+    return {"events": events, "nontrivial": bool(alive.any()), "sample": {"prop": case["prop"], "trial": case["trial"], "weights": a[2].tolist(), "perm": p.tolist()},
+            "counters": {"propagate_cases": 1}}
+
+
 def run_case(case):
-    return {"measure": run_measure, "propagate": run_propagate, "storage": run_storage}[case["type"]](case)
+    return {"measure": run_measure, "propagate": run_propagate, "storage": run_storage, "cpmc": run_cpmc}[case["type"]](case)
